@@ -45,6 +45,13 @@ impl<'a, W: 'a + InnerWriterTrait> LayerWriter<'a, W> for PositionLayerWriter<'a
         // Recursive call
         self.inner.finalize()
     }
+
+    #[cfg(mla_verif)]
+    #[allow(clippy::cast_possible_wrap)]
+    fn verif_state(&self, out: &mut Vec<(&'static str, i64)>) {
+        out.push(("pos", self.pos as i64));
+        self.inner.verif_state(out);
+    }
 }
 
 impl<'a, W: 'a + InnerWriterTrait> Write for PositionLayerWriter<'a, W> {
